@@ -150,6 +150,10 @@ def run(tier="quick", seed=0, replay_path=None):
                     kn = k
             pub = {"q": c["q"], "sc": c["sc"], "dseed": c["dseed"], "np": c["np"], "knobs": [kn] if kn else [], "kw": to_kwargs(kn) if kn else {},
                    "ops": rel.ops_of(c["q"]), "groupby_fs": rel.groupby_fs(c["q"]), "how": merge_how(c["q"]), "label": label, "errmsg": tr["msgs"].get(label, "")}
+            if (cl if label else clause) == "Sorted":
+                tabs = rel.make_tables(c["dseed"], nrows=(18, 17))
+                envd = rel.dask_sources(tabs, {"T1": ("from_pandas", c["np"][0]), "T2": ("from_pandas", c["np"][1])})
+                pub["sort_input_nullkey_partition"] = rel.sort_input_nullkey_partition(c["q"], envd)
             chk.fail(cl if label else clause, pub, {"msg": tr["msgs"].get(label, "")})
     for tr in good[2:300:120]:
         chk.sample({"q": tr["q"], "labels": [o["label"] for o in tr["obs"]][:6]})
